@@ -30,6 +30,10 @@ B = 'kronecker_factored_lattice_lib'
 
 
 def run(prog, res):
+  from ..rules import guards as _g
+  for q in ('kronecker_factored_lattice_lib.evaluate_with_hypercube_interpolation',):
+    _g.check_clip_paths(prog, res, prog.function(q))
+  res.floor('X5', 1)
   from ..rules import dtypes, validate
   dtypes.selfcheck()
   _cl = validate.call_closure(prog, [prog.function(q) for q in ('kronecker_factored_lattice_layer.KroneckerFactoredLattice.call',)],
